@@ -209,8 +209,7 @@ theorem Inv.congr {a b : St} (hk : b.vkeys = a.vkeys) (hc : b.cur = a.cur) (hs :
   rw [hk, hc, hs, hd]
   exact h
 
-/-- items whose names are covered by the theorem: everything but `call_inline` (its names are
-    `prefix + body name`, a different family). Subgraphs are included. -/
+/-- plain items (no `call_inline`): used by the refutation of the *rendered* statement. -/
 def simpleItem : Item → Bool
   | .inline _ _ _ _ => false
   | _ => true
@@ -313,7 +312,129 @@ theorem Inv.doEndSub (st : St) (rets : List Nat) (declared : List String) (h : I
         omega
       · simpa [hk] using h.2
 
-theorem Inv.step (fns : List Fn) (st : St) (it : Item) (hs : simpleItem it = true) (h : Inv st) :
+/-! ### `call_inline`: only raw keys are created, the node count only grows -/
+
+def KE (st st' : St) : Prop :=
+  (∃ rs : List VKey, st'.vkeys = st.vkeys ++ rs ∧ ∀ k ∈ rs, isAutoKey k = false) ∧ N st ≤ N st'
+
+theorem KE.refl (st : St) : KE st st := ⟨⟨[], by simp, by simp⟩, Nat.le_refl _⟩
+
+theorem KE.trans {a b c : St} (h1 : KE a b) (h2 : KE b c) : KE a c := by
+  obtain ⟨⟨r1, e1, p1⟩, n1⟩ := h1
+  obtain ⟨⟨r2, e2, p2⟩, n2⟩ := h2
+  refine ⟨⟨r1 ++ r2, by rw [e2, e1, List.append_assoc], ?_⟩, Nat.le_trans n1 n2⟩
+  intro k hk
+  rcases List.mem_append.mp hk with h | h
+  · exact p1 k h
+  · exact p2 k h
+
+theorem RawExt.ke {a b : St} (h : RawExt a b) : KE a b := ⟨h.1, Nat.le_of_eq h.2.symm⟩
+
+theorem KE.same {a b : St} (hk : b.vkeys = a.vkeys) (hc : b.cur.nodes.length = a.cur.nodes.length)
+    (hs : b.stack = a.stack) (hd : b.done = a.done) : KE a b :=
+  ⟨⟨[], by simp [hk], by simp⟩, by simp [N, nodeCount, hc, hs, hd]⟩
+
+theorem Inv.ke {st st' : St} (h : Inv st) (e : KE st st') : Inv st' := by
+  obtain ⟨⟨rs, ek, pr⟩, en⟩ := e
+  have hf : rs.filter isAutoKey = [] := by
+    apply List.filter_eq_nil_iff.mpr
+    intro k hk
+    simp [pr k hk]
+  refine ⟨?_, ?_⟩
+  · intro k hk p o c i hkey
+    rw [ek] at hk
+    rcases List.mem_append.mp hk with hk | hk
+    · exact Nat.lt_of_lt_of_le (h.1 k hk p o c i hkey) en
+    · have := pr k hk
+      rw [hkey] at this
+      simp [isAutoKey] at this
+  · rw [ek, List.filter_append, hf, List.append_nil]
+    exact h.2
+
+theorem ke_cloneNodes (np : String) : ∀ (nodes : List FNode) (st : St) (m : VMap),
+    KE st (cloneNodes st m np nodes).1
+  | [], st, _ => KE.refl st
+  | n :: r, st, m => by
+    simp only [cloneNodes]
+    refine KE.trans ?_ (ke_cloneNodes np r _ _)
+    simp only [cloneNode]
+    exact (rawExt_newValues st _).ke
+
+theorem ke_fold {β : Type} (l : List β) (g : St → β → St)
+    (hg : ∀ s x, (g s x).vkeys = s.vkeys ∧ (g s x).cur = s.cur ∧ (g s x).stack = s.stack ∧ (g s x).done = s.done)
+    (st : St) : KE st (l.foldl g st) := by
+  obtain ⟨a, b, c, d⟩ := renameValue_fold_keys l st g hg
+  exact KE.same a (by rw [b]) c d
+
+theorem ke_addInlined (finals : List Nat) : ∀ (nodes : List Node) (st : St), KE st (addInlined st finals nodes)
+  | [], st => KE.refl st
+  | n :: r, st => by
+    simp only [addInlined]
+    have h1 := ke_fold n.outs
+      (fun s o => if nameOf s o ≠ "" ∧ o ∉ finals then renameValue s o (qualifyValue s.cur) else s)
+      (by intro s o; split <;> simp [renameValue]) st
+    have h2 : ∀ s : St, KE s (addNode s n) := fun s =>
+      ⟨⟨[], by simp [addNode], by simp⟩, by rw [N_addNode]; omega⟩
+    exact KE.trans (KE.trans h1 (h2 _)) (ke_addInlined finals r _)
+
+theorem ke_renameFinals (guard : Nat → Bool) (st : St) (outs : List (Option Nat)) (d : Option (List String)) :
+    KE st (renameFinals guard st outs d) := by
+  cases d with
+  | some desired =>
+    simp only [renameFinals]
+    apply ke_fold
+    intro s x
+    cases x.1 with
+    | none => simp
+    | some id => simp only []; split <;> simp [renameValue]
+  | none =>
+    simp only [renameFinals]
+    apply ke_fold
+    intro s o
+    cases o with
+    | none => simp
+    | some id => simp only []; split <;> simp [renameValue]
+
+theorem ke_popScope (st : St) : KE st (popScope st) := by
+  unfold popScope
+  split
+  · exact (rawExt_fail st _).ke
+  · exact KE.same rfl rfl rfl rfl
+
+theorem ke_inlineRun (total : Bool) (st0 : St) (f : Fn) (actuals : List (Option Nat))
+    (desired : Option (List String)) : KE st0 (inlineRun total st0 f actuals desired).1 := by
+  unfold inlineRun inlineClones
+  simp only []
+  exact KE.trans (ke_cloneNodes _ f.nodes st0 _) (KE.trans (ke_addInlined _ _ _) (ke_renameFinals _ _ _ _))
+
+theorem Inv.doInline (fns : List Fn) (st : St) (fi : Nat) (a : List Arg) (o : Option (List String))
+    (p : String) (h : Inv st) : Inv (doInline true fns st fi a o p) := by
+  unfold OV.C18.doInline
+  split
+  · exact Inv.rawExt h (rawExt_fail st _)
+  · rename_i f _
+    split
+    · exact Inv.rawExt h (rawExt_fail st _)
+    · split
+      · exact Inv.rawExt h (rawExt_fail st _)
+      · split
+        · exact Inv.rawExt h (rawExt_fail st _)
+        · simp only []
+          have k0 : KE st (if p = "" then st else pushScope st p) := by
+            split
+            · exact KE.refl st
+            · exact KE.same rfl rfl rfl rfl
+          have k1 := ke_inlineRun true (if p = "" then st else pushScope st p) f
+            (resolveArgs (if p = "" then st else pushScope st p) a).2
+            (o.map (fun o => o.map (qualifyValue st.cur)))
+          have k2 : ∀ s : St, KE s (if p = "" then s else popScope s) := by
+            intro s
+            split
+            · exact KE.refl s
+            · exact ke_popScope s
+          exact Inv.congr rfl rfl rfl rfl (h.ke (KE.trans k0 (KE.trans k1 (k2 _))))
+
+theorem Inv.step (fns : List Fn) (st : St) (it : Item) (h : Inv st) :
     Inv (OV.C18.step true fns st it) := by
   cases it with
   | input n => exact Inv.rawExt h ⟨⟨[.raw n], rfl, by simp [isAutoKey]⟩, rfl⟩
@@ -325,7 +446,7 @@ theorem Inv.step (fns : List Fn) (st : St) (it : Item) (hs : simpleItem it = tru
     · exact Inv.rawExt h (rawExt_fail st _)
     · exact Inv.rawExt h ⟨⟨[], by simp, by simp⟩, rfl⟩
   | call f a o => exact Inv.doCall fns st f a o h
-  | inline f a o p => simp [simpleItem] at hs
+  | inline f a o p => exact Inv.doInline fns st f a o p h
   | beginSub g i => exact Inv.doBeginSub st g i h
   | endSub r d => exact Inv.doEndSub st r d h
   | output hd n =>
@@ -343,11 +464,11 @@ theorem Inv.init : Inv St.init := by
   · intro k hk; simp [St.init] at hk
   · simp [St.init]
 
-theorem Inv.foldl (fns : List Fn) : ∀ (tr : List Item) (st : St), (∀ it ∈ tr, simpleItem it = true) →
+theorem Inv.foldl (fns : List Fn) : ∀ (tr : List Item) (st : St),
     Inv st → Inv (tr.foldl (OV.C18.step true fns) st)
-  | [], st, _, h => h
-  | it :: r, st, hs, h => by
+  | [], st, h => h
+  | it :: r, st, h => by
     simp only [List.foldl_cons]
-    exact Inv.foldl fns r _ (fun x hx => hs x (by simp [hx])) (Inv.step fns st it (hs it (by simp)) h)
+    exact Inv.foldl fns r _ (Inv.step fns st it h)
 
 end OV.C18
